@@ -95,7 +95,7 @@ func TlvGetSubaddress(keys *types.AccountKey, index uint32) (addr types.AccountA
 	view := [32]byte(keys.ViewSKey)
 	m := subaddressSecret(&view, subaddrMajor(index), subaddrMinor(index))
 	d := new(ed.Point).Add(b, new(ed.Point).ScalarBaseMult(m))
-	c := intMult(&view, d)
+	c := geScalarmult(&view, d)
 	addr.SpendPublicKey = types.PublicKey(encodePoint(d))
 	addr.ViewPublicKey = types.PublicKey(encodePoint(c))
 	return addr, nil
@@ -108,7 +108,7 @@ func GenerateKeyDerivation(pub types.PublicKey, sec types.SecretKey) (der types.
 		return der, fmt.Errorf("CGO x_generate_key_derivation fail")
 	}
 	s := [32]byte(sec)
-	r := intMult(&s, p)
+	r := geScalarmult(&s, p)
 	r.MultByCofactor(r)
 	return types.KeyDerivation(encodePoint(r)), nil
 }
@@ -170,5 +170,5 @@ func SecretKeyToPublicKey(sec types.SecretKey) (pub types.PublicKey, err error) 
 func GenerateKeyImage(pub types.PublicKey, sec types.SecretKey) (ki types.KeyImage, err error) {
 	hp := hashToPoint(pub[:])
 	s := [32]byte(sec)
-	return types.KeyImage(encodePoint(intMult(&s, hp))), nil
+	return types.KeyImage(encodePoint(geScalarmult(&s, hp))), nil
 }
